@@ -3,6 +3,11 @@
 caught_by / reports in /verif/seeded/<id>/meta.json."""
 import json, os, re, subprocess, sys, tempfile, shutil
 root = "/verif/seeded"
+# The patches are applied in a scratch worktree of /repo at its current HEAD (same content as `git -C /repo apply …;
+# checks; git -C /repo checkout -- .`, but /repo itself is never touched, so nothing can be committed by accident).
+WT = "/tmp/recheck_wt"
+subprocess.run(["git", "-C", "/repo", "worktree", "remove", "--force", WT], capture_output=True)
+subprocess.run(["git", "-C", "/repo", "worktree", "add", "--detach", WT, "HEAD"], check=True, capture_output=True)
 res = []
 flt = sys.argv[1] if len(sys.argv) > 1 else ""
 for seed in sorted(os.listdir(root)):
@@ -14,17 +19,17 @@ for seed in sorted(os.listdir(root)):
         continue
     meta = json.load(open(mf))
     patch = os.path.join(d, "patch.diff")
-    if subprocess.run(["git", "-C", "/repo", "apply", "--check", patch], capture_output=True).returncode != 0:
+    if subprocess.run(["git", "-C", WT, "apply", "--check", patch], capture_output=True).returncode != 0:
         print(seed, "PATCH-DOES-NOT-APPLY")
         continue
     ev = tempfile.mkdtemp(prefix="seedev")
     shutil.copy("/verif/known_findings.json", ev + "/known_findings.json")
-    subprocess.run(["git", "-C", "/repo", "apply", patch], check=True)
+    subprocess.run(["git", "-C", WT, "apply", patch], check=True)
     try:
-        r = subprocess.run(["/verif/bin/verifcheck", "all", "quick"], env=dict(os.environ, VERIF_DIR=ev), capture_output=True, text=True)
+        r = subprocess.run(["/verif/bin/verifcheck", "all", "quick"], env=dict(os.environ, VERIF_DIR=ev, VERIF_REPO=WT), capture_output=True, text=True)
     finally:
-        subprocess.run(["git", "-C", "/repo", "checkout", "--", "."], check=True)
-        subprocess.run(["git", "-C", "/repo", "clean", "-fdq"], check=True)
+        subprocess.run(["git", "-C", WT, "checkout", "--", "."], check=True)
+        subprocess.run(["git", "-C", WT, "clean", "-fdq"], check=True)
         shutil.rmtree(ev, ignore_errors=True)
     caught = sorted(set(re.findall(r"^(?:VIOLATED|UNDECIDED) (C\d\d\.R\d+)", r.stdout, re.M)))
     meta["caught_by"] = caught
@@ -33,3 +38,4 @@ for seed in sorted(os.listdir(root)):
     own = [c for c in caught if c.startswith(meta["property"] + ".")]
     print(seed, "own:", ",".join(own) or "-", "other:", ",".join(c for c in caught if c not in own) or "-")
     sys.stdout.flush()
+subprocess.run(["git", "-C", "/repo", "worktree", "remove", "--force", WT], capture_output=True)
